@@ -44,6 +44,10 @@ pub struct Case {
     pub content: Content,
     pub order: Vec<u16>,
     pub public: bool,
+    /// network reads (by number, in the order they are answered) whose holder does not return the chunk:
+    /// the read ends NotFound (even) or times out (odd position in this list)
+    #[serde(default)]
+    pub missing: Vec<u8>,
 }
 
 pub fn max_chunk() -> usize {
@@ -63,7 +67,8 @@ fn case_strategy() -> BoxedStrategy<Case> {
         4 => any::<u16>().prop_map(Content::Incompressible),
         2 => any::<u16>().prop_map(Content::Mixed),
     ];
-    (len, content, proptest::collection::vec(any::<u16>(), 0..24), any::<bool>()).prop_map(|(len, content, order, public)| Case { len, content, order, public }).boxed()
+    let missing = prop_oneof![3 => Just(vec![]), 1 => proptest::collection::vec(0u8..10, 1..3)];
+    (len, content, proptest::collection::vec(any::<u16>(), 0..24), any::<bool>(), missing).prop_map(|(len, content, order, public, missing)| Case { len, content, order, public, missing }).boxed()
 }
 
 pub fn length_of(sel: &LenSel) -> usize {
@@ -129,7 +134,7 @@ fn check(case: &Case, ctx: &mut Ctx) {
     let len = length_of(&case.len);
     let data = Bytes::from(content_of(&case.content, len));
     ctx.sample = Some(serde_json::json!({"len": len, "content": format!("{:?}", case.content), "public": case.public, "max_chunk": max}));
-    ctx.canon = Some(format!("{len}/{:?}/{}/{:?}", case.content, case.public, case.order));
+    ctx.canon = Some(format!("{len}/{:?}/{}/{:?}/{:?}", case.content, case.public, case.order, case.missing));
     let enc = autonomi::self_encryption::encrypt(data.clone());
     if len < 3 {
         ctx.label("too_small");
@@ -186,6 +191,7 @@ fn check(case: &Case, ctx: &mut Ctx) {
 
     // ---- fetch + decrypt through the real client --------------------------------------------------
     let mut reordered = false;
+    let mut denied = 0usize;
     let got = with_sim(|sim| {
         let client = sim.client.clone();
         let op = if case.public {
@@ -199,11 +205,17 @@ fn check(case: &Case, ctx: &mut Ctx) {
         let finished = sim.drive(&op, |sim| {
             let n = sim.outstanding.len();
             let i = pick_idx(case.order.get(oi).copied().unwrap_or(0), n);
+            let read_no = oi;
             oi += 1;
             if i > 0 {
                 reordered = true;
             }
             let (id, key) = (sim.outstanding[i].id, sim.outstanding[i].key.clone());
+            if let Some(pos) = case.missing.iter().position(|m| *m as usize == read_no) {
+                denied += 1;
+                sim.terminate(id, &key, if pos % 2 == 0 { Term::NotFound } else { Term::Timeout });
+                return;
+            }
             match map.get(&key.to_vec()) {
                 Some(c) => sim.reply(id, Some(fix::peer(1)), chunk_record(c)),
                 None => sim.terminate(id, &key, Term::NotFound),
@@ -217,6 +229,18 @@ fn check(case: &Case, ctx: &mut Ctx) {
     ctx.label_if(reordered, "fetch_order_differs_from_request_order");
     ctx.label(if case.public { "data_get_public" } else { "data_get" });
     ctx.nontrivial_if(boundary || multi_level || reordered);
+    ctx.label_if(denied > 0, "some_chunk_reads_found_no_holder");
+    if denied > 0 {
+        // the data cannot be (fully) fetched: an error is the right answer (a client that retries and succeeds
+        // would be as well); bytes other than the original, presented as success, are mangled data
+        ctx.label(if got.is_ok() { "incomplete_fetch_ends_ok" } else { "incomplete_fetch_ends_in_error" });
+        if let Ok(b) = &got {
+            if *b != data {
+                ctx.fail("incomplete_fetch_returns_different_bytes", format!("input {len} bytes ({:?}), {denied} chunk read(s) found no holder, yet the read succeeded with {} bytes that are not the input", case.content, b.len()));
+            }
+        }
+        return;
+    }
     match got {
         Ok(b) if b == data => {}
         Ok(b) => ctx.fail("roundtrip_returns_different_bytes", format!("input {len} bytes ({:?}), got {} bytes back", case.content, b.len())),
